@@ -101,11 +101,11 @@ class RecClient(C.GenericClient):
                     self.currentStep = out[1]
                     self.isPartiallyProcessed = True
                     call["out"] = "FAILPARTIAL"
-                    self.world["calls"].append(call)
-                    raise RuntimeError("handler failure (partial)")
-                call["out"] = "FAIL" if out else "ok"
+                else:
+                    call["out"] = "FAIL" if out else "ok"
                 self.world["calls"].append(call)
                 if out:
+                    # one raise site and one text: the error message is stored in the queue file
                     raise RuntimeError("handler failure")
             return h
         raise AttributeError(name)
